@@ -859,11 +859,34 @@ func c09StartupCancel(out *vlib.Out) {
 // randomised stress under the race detector (run by a separate plan entry with -race)
 
 func TestVerifC09Race(t *testing.T) {
+	// The process-wide statistics singleton, with the fields initStats gives it but silent and without
+	// its two ticker goroutines: the harness's own printer goroutine below plays their part (far more
+	// often). Must run before anything calls Stat().
+	statsOnce.Do(func() {
+		statInstance = Stats{logger: log.New(io.Discard, "", golog.Ldate), generations: make(map[uint32]int64), genMutex: &sync.Mutex{}}
+	})
+	out := vlib.Open("C09race")
+	defer out.Close()
+	replay := "go test -tags verif -race -run TestVerifC09Race ./pkg/station/lib/"
 	lv := &c09Live{live: map[string]bool{}}
 	rm := c09Manager(lv)
 	rd := rm.registeredDecoys
-	rd.registerForDetector = func(d *DecoyRegistration) {}
+	// ---- oracle that needs real parallelism: visible only after validation. What a lookup returns has
+	// been announced (validity is set and the announcement made in one critical section). The real seam
+	// publishes to Redis; the stub yields the processor instead, which gives a split critical section
+	// its window. (Announce-once and the duplicate counter are checked in c09ExactCounts, where no
+	// sweeper runs and lifetimes are therefore known.)
+	var announced sync.Map
+	var early int64
+	var earlyKey atomic.Value
+	rd.registerForDetector = func(d *DecoyRegistration) {
+		runtime.Gosched()
+		announced.Store(d, true)
+	}
 	rd.updateInDetector = func(d *DecoyRegistration) {}
+	Stat().AddStatsModule(rm, false)
+	Stat().AddStatsModule(GetProxyStats(), false)
+	Stat().AddStatsModule(lv, false)
 	dur := 1500 * time.Millisecond
 	if vlib.Tier() == "thorough" {
 		dur = 8 * time.Second
@@ -884,6 +907,11 @@ func TestVerifC09Race(t *testing.T) {
 				case 1: // connection handler
 					d := c09Reg(ph, sec, tr, true, "")
 					if reg, ok := rd.getRegistrations(d.PhantomIp)[rd.transports[d.Transport].GetIdentifier(d)]; ok {
+						// (2) visible only after validation: what a lookup returns has been announced
+						if _, ok := announced.Load(reg); !ok {
+							atomic.AddInt64(&early, 1)
+							earlyKey.Store(reg.IDString())
+						}
 						rm.MarkActive(reg)
 					}
 					_ = rm.CountRegistrations(d.PhantomIp)
@@ -917,6 +945,41 @@ func TestVerifC09Race(t *testing.T) {
 			_ = rm.IsBlocklistedPhantom(net.ParseIP("192.0.2.1"))
 		}
 	}()
+	// the statistics printers (stats.go: a ticker goroutine calls PrintStats) read and reset what the
+	// workers, the sweeper and the pipeline count
+	wg.Add(1)
+	go func() {
+		defer wg.Done()
+		for time.Now().Before(stop) {
+			Stat().PrintStats(false)
+			time.Sleep(200 * time.Microsecond)
+		}
+	}()
+	// the real pipeline on the same manager: messages from the socket (valid and malformed), its
+	// start-up and its shutdown while everything else is running
+	wg.Add(1)
+	go func() {
+		defer wg.Done()
+		for round := 0; time.Now().Before(stop); round++ {
+			ctx, cancel := context.WithCancel(context.Background())
+			in := make(chan interface{})
+			var pwg sync.WaitGroup
+			pwg.Add(1)
+			go rm.HandleRegUpdates(ctx, in, &pwg)
+			for i := 0; i < 40 && time.Now().Before(stop); i++ {
+				select {
+				case in <- c09ValidMsg(9000 + i%7):
+				case <-time.After(time.Second):
+				}
+				select {
+				case in <- []byte{0xff, 0xff}:
+				case <-time.After(time.Second):
+				}
+			}
+			cancel()
+			pwg.Wait()
+		}
+	}()
 	// configuration reload concurrent with the workers
 	if os.Getenv("VERIF_C09_NORELOAD") == "" {
 		wg.Add(1)
@@ -929,7 +992,6 @@ func TestVerifC09Race(t *testing.T) {
 	select {
 	case <-finished:
 	case <-time.After(dur + 45*time.Second):
-		out := vlib.Open("C09race")
 		buf := make([]byte, 1<<20)
 		n := runtime.Stack(buf, true)
 		dump := string(buf[:n])
@@ -944,9 +1006,107 @@ func TestVerifC09Race(t *testing.T) {
 			}
 		}
 		out.OracleFail("C09:deadlock-under-stress", fmt.Sprintf("workers, handlers and sweeper did not finish %v after the stress ended; %d goroutines are blocked in the registry RWMutex", 45*time.Second, blocked),
-			"go test -race -run TestVerifC09Race ./pkg/station/lib/ ; goroutine dump: "+strings.ReplaceAll(short, "\n", " ⏎ "))
+			replay+" ; goroutine dump: "+strings.ReplaceAll(short, "\n", " ⏎ "))
 		out.Close()
 		t.Fatalf("deadlock under stress (%d goroutines blocked in RWMutex)", blocked)
+	}
+	out.Checked()
+	if n := atomic.LoadInt64(&early); n > 0 {
+		out.OracleFail("C09:visible-before-announced-under-stress", fmt.Sprintf("%d times a connection lookup returned a registration that had not been announced (validated) yet (e.g. %v)", n, earlyKey.Load()), replay)
+	}
+	c09ExactCounts(out, replay)
+}
+
+// c09ExactCounts: announce-once and no-lost-update as exact counts under real parallelism. Without a
+// sweeper nothing is ever removed, so every registration has exactly one lifetime: it must be
+// announced as new exactly once however many workers validate it at the same moment, and — every
+// ingestRegistration of an admissible registration tracks it exactly once (new path or duplicate
+// path) — its duplicate counter must equal the number of ingest calls made for it. All workers walk
+// through the same sequence of fresh registrations, so they keep colliding on the check-then-track
+// and validate windows, with lookups and activations in between.
+func c09ExactCounts(out *vlib.Out, replay string) {
+	lv := &c09Live{live: map[string]bool{}}
+	rm := c09Manager(lv)
+	rd := rm.registeredDecoys
+	const G, K = 6, 240 // workers, registrations (2 phantoms x 60 secrets x 2 transports)
+	key := func(i int) (ph, sec, tr int) { return i % 2, (i / 4) % 60, (i / 2) % 2 }
+	var mu sync.Mutex
+	news := map[string]int{}
+	rd.registerForDetector = func(d *DecoyRegistration) {
+		runtime.Gosched() // the real seam does network I/O here
+		k := d.PhantomIp.String() + "/" + d.IDString() + "/" + d.Transport.String()
+		mu.Lock()
+		news[k]++
+		mu.Unlock()
+	}
+	rd.updateInDetector = func(d *DecoyRegistration) {}
+	var wg sync.WaitGroup
+	for g := 0; g < G; g++ {
+		g := g
+		wg.Add(2)
+		go func() {
+			defer wg.Done()
+			r := vlib.NewRand(fmt.Sprintf("C09count%d", g))
+			for i := 0; i < K; i++ {
+				ph, sec, tr := key(i)
+				rm.ingestRegistration(c09Reg(ph, sec, tr, r.Bool(), "1.2.3.4:443"))
+			}
+		}()
+		go func() {
+			defer wg.Done()
+			r := vlib.NewRand(fmt.Sprintf("C09counth%d", g))
+			for i := 0; i < K; i++ {
+				ph, sec, tr := key(r.Intn(K))
+				d := c09Reg(ph, sec, tr, true, "")
+				if reg, ok := rd.getRegistrations(d.PhantomIp)[rd.transports[d.Transport].GetIdentifier(d)]; ok {
+					rm.MarkActive(reg)
+				}
+				_ = rm.CountRegistrations(d.PhantomIp)
+				_ = rd.TotalRegistrations()
+			}
+		}()
+	}
+	done := make(chan struct{})
+	go func() { wg.Wait(); close(done) }()
+	select {
+	case <-done:
+	case <-time.After(60 * time.Second):
+		out.OracleFail("C09:deadlock-under-stress", "workers and handlers of the exact-count phase did not finish within 60 s", replay)
+		return
+	}
+	twice, never, lost := 0, 0, 0
+	var exTwice, exNever, exLost string
+	for i := 0; i < K; i++ {
+		ph, sec, tr := key(i)
+		d := c09Reg(ph, sec, tr, true, "")
+		k := d.PhantomIp.String() + "/" + d.IDString() + "/" + d.Transport.String()
+		out.Checked()
+		switch n := news[k]; {
+		case n > 1:
+			twice++
+			exTwice = fmt.Sprintf("%s announced %d times", k, n)
+		case n == 0:
+			never++
+			exNever = k
+		}
+		got := int64(-1)
+		if reg := rd.RegistrationExists(d); reg != nil {
+			got = int64(reg.regCount)
+		}
+		out.Checked()
+		if got != G {
+			lost++
+			exLost = fmt.Sprintf("%s ingested %d times, counter %d", k, G, got)
+		}
+	}
+	if twice > 0 {
+		out.OracleFail("C09:announced-twice-under-stress", fmt.Sprintf("%d of %d registrations were announced to the detector as new more than once within their single lifetime (no sweeper running), e.g. %s", twice, K, exTwice), replay)
+	}
+	if never > 0 {
+		out.OracleFail("C09:never-announced-under-stress", fmt.Sprintf("%d of %d registrations that passed every admission check were never announced (no sweeper running), e.g. %s", never, K, exNever), replay)
+	}
+	if lost > 0 {
+		out.OracleFail("C09:lost-update-regcount", fmt.Sprintf("%d of %d registrations: each was ingested once by each of %d parallel workers (no sweeper running) but the duplicate counter disagrees, e.g. %s", lost, K, G, exLost), replay)
 	}
 }
 
